@@ -29,6 +29,8 @@ type Plan struct {
 	Groups       []Group
 	CorpusGroups []Group // configurations the tests/**.ego corpus is run under
 	CorpusModes  []string
+	// CorpusDirs limits the corpus directories (quick tier); empty = all.
+	CorpusDirs []string
 	// CorpusTraceDirs limits the directories run under --trace (tracing is
 	// about 20 times slower); empty = all.
 	CorpusTraceDirs []string
